@@ -10,7 +10,8 @@ VARIABLES d, choices
 vars == <<d, choices>>
 LexNTs == {"binop", "unop", "primary", "const_expr", "lvalue", "range", "ansi_port", "param_port", "net_decl", "var_decl", "typedef_decl",
            "case_item", "systf_call", "tf_ports", "named_conn", "port_decl_in", "port_decl_out", "param_stmt", "while_stmt", "always",
-           "blocking", "nonblocking", "hinst", "if_item", "pkg_item", "class_item", "fstmt", "stmt_first"}
+           "blocking", "nonblocking", "hinst", "if_item", "pkg_item", "class_item", "fstmt", "stmt_first",
+           "x_gate", "x_item", "x_cg", "x_spec", "x_desc", "x_ifitem", "x_citem", "x_stmt", "x_prim"}
 Init == d = Shift(DInit(Start, Budget)) /\ choices = <<>>
 Next == /\ ~Complete(d)
         /\ \E k \in 1..Len(Prod[LeftNT(d)]) :
